@@ -247,7 +247,7 @@ type c12Sched struct {
 	total int64
 }
 
-func (sc *c12Sched) hook(point string, a, b int64) {
+func (sc *c12Sched) Hook(point string, a, b int64) {
 	sc.mu.Lock()
 	if len(sc.sig) < 400 {
 		sc.sig = append(sc.sig, fmt.Sprintf("%s:%d", strings.TrimPrefix(point, "bsdiff-"), b))
@@ -358,12 +358,12 @@ func c12Rand(s c12Spec, res *lib.Result) {
 	sc := &c12Sched{mode: s.Sched, rng: lib.NewRng(lib.Mix(s.Seed, 5)), ended: map[int64]bool{}}
 	sc.cond = sync.NewCond(&sc.mu)
 	if s.Sched != "none" {
-		bsdiff.VerifHook = sc.hook
-		defer func() { bsdiff.VerifHook = nil }()
+		lib.SetHook(sc)
+		defer lib.SetHook(nil)
 	}
 	m := &c12Monitor{dctx: &bsdiff.DiffContext{SuffixSortConcurrency: r.PickInt([]int{0, 1, 4, -1})}, pctx: bsdiff.NewPatchContext()}
 	key, detail, rs := m.check(old, nw, s.P, true)
-	bsdiff.VerifHook = nil
+	lib.SetHook(nil)
 	if key != "" {
 		res.Violate(key, fmt.Sprintf("shape=%s |old|=%d |new|=%d partitions=%d procs=%d sched=%s seed=%d", s.Shape, len(old), len(nw), s.P, s.Procs, s.Sched, s.Seed), detail)
 	}
